@@ -15,6 +15,7 @@ type ClauseOpt struct {
 	NoFuncs  bool // no predicate functions (used where callbacks must not be involved)
 	NoLike   bool
 	Focus    string // a column half of the leaves are about ("" = none)
+	Sparse   string // an int column of unique values: half of the leaves select one or two rows by it ("" = none)
 }
 
 var ordComps = []string{"<", "<=", ">", ">=", "=", "!="}
@@ -111,6 +112,26 @@ func likePatternFor(t *rapid.T, c Col) string {
 
 // GenLeaf draws a well-typed leaf over the columns of tab.
 func GenLeaf(t *rapid.T, tab Table, o ClauseOpt) Clause {
+	if o.Sparse != "" && tab.Find(o.Sparse) >= 0 && tab.N() > 0 && rapid.Bool().Draw(t, "sparseleaf") {
+		return sparseLeaf(t, tab, o)
+	}
+	return genLeaf(t, tab, o)
+}
+
+// sparseLeaf: a leaf that keeps one or two rows: results that are small next to the frame.
+func sparseLeaf(t *rapid.T, tab Table, o ClauseOpt) Clause {
+	{
+		sc := tab.MustCol(o.Sparse)
+		v := sc.I[rapid.IntRange(0, len(sc.I)-1).Draw(t, "sparserow")]
+		if rapid.Bool().Draw(t, "sparsepair") {
+			w := sc.I[rapid.IntRange(0, len(sc.I)-1).Draw(t, "sparserow2")]
+			return Clause{Op: "leaf", Col: sc.Name, Comp: "in", Arg: "list", LI: []int{v, w}, ListForm: rapid.IntRange(0, 2).Draw(t, "listform")}
+		}
+		return IntConst(sc.Name, "=", v)
+	}
+}
+
+func genLeaf(t *rapid.T, tab Table, o ClauseOpt) Clause {
 	c := tab.Cols[rapid.IntRange(0, len(tab.Cols)-1).Draw(t, "leafcol")]
 	if o.Focus != "" && tab.Find(o.Focus) >= 0 && rapid.Bool().Draw(t, "leaffocus") {
 		c = tab.MustCol(o.Focus)
@@ -256,6 +277,27 @@ func GenLeaf(t *rapid.T, tab Table, o ClauseOpt) Clause {
 func GenClause(t *rapid.T, tab Table, depth int, o ClauseOpt) Clause {
 	if depth <= 0 {
 		return GenLeaf(t, tab, o)
+	}
+	if o.Sparse != "" && tab.Find(o.Sparse) >= 0 && tab.N() > 0 && rapid.Bool().Draw(t, "sparseor") {
+		// an Or whose members keep a row or two each, at least one of them composite (composite members are
+		// evaluated on their own and merged into the result of the others)
+		n := rapid.IntRange(2, 3).Draw(t, "sparsekids")
+		kids := make([]Clause, n)
+		composite := rapid.IntRange(0, n-1).Draw(t, "sparsecomposite")
+		for i := range kids {
+			kids[i] = sparseLeaf(t, tab, o)
+			if i == composite || rapid.IntRange(0, 2).Draw(t, "alsocomposite") == 0 {
+				switch rapid.IntRange(0, 2).Draw(t, "compositekind") {
+				case 0:
+					kids[i] = Clause{Op: "and", Kids: []Clause{kids[i]}}
+				case 1:
+					kids[i] = Clause{Op: "and", Kids: []Clause{genLeaf(t, tab, o), kids[i]}}
+				default:
+					kids[i] = Clause{Op: "or", Kids: []Clause{kids[i], sparseLeaf(t, tab, o)}}
+				}
+			}
+		}
+		return Clause{Op: "or", Kids: kids}
 	}
 	switch rapid.IntRange(0, 9).Draw(t, "node") {
 	case 0, 1, 2:
